@@ -110,24 +110,64 @@ func genC35(t *rapid.T) c35Case {
 	} else {
 		c.Peer = fmt.Sprintf("10.%d.%d.%d:%d", rapid.IntRange(0, 255).Draw(t, "p4a"), rapid.IntRange(0, 255).Draw(t, "p4b"), rapid.IntRange(1, 254).Draw(t, "p4c"), rapid.IntRange(1, 65535).Draw(t, "pport"))
 	}
-	n := rapid.IntRange(0, 8).Draw(t, "nHeaders")
-	for i := 0; i < n; i++ {
-		var name string
-		switch rapid.IntRange(0, 9).Draw(t, "hdrKind") {
-		case 0, 1, 2, 3, 4, 5:
-			name = rapid.SampledFrom(c35Protected).Draw(t, "protected")
-		case 6, 7:
-			name = rapid.SampledFrom(c35OtherFwd).Draw(t, "otherFwd")
-		case 8:
-			// a hop-by-hop declaration naming a protected header
-			c.Headers = append(c.Headers, hdrLine{Name: oddCase(t, "Connection"), Value: rapid.SampledFrom(c35Protected).Draw(t, "connTarget")})
-			continue
-		default:
-			name = rapid.SampledFrom(c35Benign).Draw(t, "benign")
+	// Per spoofable header 0..3 occurrences, every occurrence with its own
+	// value kind (empty, whitespace only, typed valid value, list "a, b",
+	// garbage, the legitimate value itself); then all lines in a generated
+	// order, so the first occurrence of a header can be any of them.
+	var lines []hdrLine
+	seq := 0
+	for _, name := range c35Protected {
+		for k := rapid.IntRange(0, 3).Draw(t, "occurrences-"+name); k > 0; k-- {
+			lines = append(lines, hdrLine{Name: oddCase(t, name), Value: genHeaderValue(t, &c, name, seq)})
+			seq++
 		}
-		c.Headers = append(c.Headers, hdrLine{Name: oddCase(t, name), Value: spoofValue(t, name, i)})
 	}
+	for _, name := range c35OtherFwd {
+		if rapid.IntRange(0, 3).Draw(t, "other-"+name) == 0 {
+			lines = append(lines, hdrLine{Name: oddCase(t, name), Value: genHeaderValue(t, &c, name, seq)})
+			seq++
+		}
+	}
+	for k := rapid.IntRange(0, 2).Draw(t, "nBenign"); k > 0; k-- {
+		name := rapid.SampledFrom(c35Benign).Draw(t, "benign")
+		lines = append(lines, hdrLine{Name: oddCase(t, name), Value: " " + spoofValue(t, name, seq)})
+		seq++
+	}
+	if rapid.IntRange(0, 3).Draw(t, "connection") == 0 {
+		// a hop-by-hop declaration naming a protected header
+		lines = append(lines, hdrLine{Name: oddCase(t, "Connection"), Value: " " + rapid.SampledFrom(c35Protected).Draw(t, "connTarget")})
+	}
+	if len(lines) > 1 {
+		lines = rapid.Permutation(lines).Draw(t, "lineOrder")
+	}
+	c.Headers = lines
 	return c
+}
+
+// genHeaderValue returns the raw text after the colon of one header line.
+func genHeaderValue(t *rapid.T, c *c35Case, name string, n int) string {
+	lname := strings.ToLower(name)
+	switch rapid.IntRange(0, 8).Draw(t, "valueKind") {
+	case 0:
+		return "" // "Name:" and nothing else
+	case 1:
+		return rapid.SampledFrom([]string{" ", "\t", "   ", " \t "}).Draw(t, "blank")
+	case 2: // garbage
+		return " " + rapid.SampledFrom([]string{"not-an-ip", "999.999.1.1", "::gg", "unknown", "_hidden", "'; DROP TABLE t;--", "1.2.3", "[::1]:80", "a b c"}).Draw(t, "garbage")
+	case 3: // the value the gateway itself would assert
+		switch lname {
+		case "x-forwarded-for", "true-client-ip", "x-real-ip":
+			ip, _, _ := net.SplitHostPort(c.Peer)
+			return " " + ip
+		case "x-forwarded-host":
+			return " " + c.Host
+		case "x-forwarded-proto":
+			return " https"
+		}
+	case 4: // a list "a, b"
+		return " " + spoofValue(t, name, n) + ", " + spoofValue(t, name, n+50)
+	}
+	return rapid.SampledFrom([]string{" ", "", "  "}).Draw(t, "sep") + spoofValue(t, name, n) // a typed valid value
 }
 
 func isProtected(name string) bool {
@@ -149,11 +189,27 @@ func runC35(t failT, rec *ev.Recorder, c c35Case) {
 	fmt.Fprintf(&raw, "%s /p/a/t/h?x=1 HTTP/1.1\r\nHost: %s\r\n", c.Method, c.HostPort)
 	spoofed := 0
 	labels := map[string]bool{"proto:" + c.Proto: true}
+	seenHdr, firstBlank := map[string]bool{}, map[string]bool{}
 	for _, h := range c.Headers {
-		fmt.Fprintf(&raw, "%s: %s\r\n", h.Name, h.Value)
+		fmt.Fprintf(&raw, "%s:%s\r\n", h.Name, h.Value)
 		if isProtected(h.Name) {
 			spoofed++
-			labels["spoofed:"+http.CanonicalHeaderKey(h.Name)] = true
+			ck := http.CanonicalHeaderKey(h.Name)
+			labels["spoofed:"+ck] = true
+			blank := strings.TrimSpace(h.Value) == ""
+			if blank {
+				labels["spoofed-value:empty-or-blank"] = true
+			}
+			switch {
+			case !seenHdr[ck]:
+				firstBlank[ck] = blank
+			case firstBlank[ck] && !blank:
+				labels["repeated-header:first-occurrence-empty,later-not"] = true
+			}
+			if seenHdr[ck] {
+				labels["repeated-header"] = true
+			}
+			seenHdr[ck] = true
 		}
 		if strings.EqualFold(h.Name, "Connection") {
 			labels["connection-names-protected-header"] = true
@@ -299,7 +355,7 @@ func runC35(t failT, rec *ev.Recorder, c c35Case) {
 
 func TestC35(t *testing.T) {
 	rec := ev.New(t, "C35")
-	rec.Rule("rapid-generated requests written as raw HTTP/1.1 text and parsed with http.ReadRequest (header keys canonical exactly as a Go server delivers them), presented as HTTP/1.1 (TLS SNI = host), HTTP/2 and HTTP/3 requests (proto fields), Host with or without a port, label.root and custom hosts, peers IPv4/IPv6, gateway ports {443, 8443, 4433, 1, 65535}; 0..8 extra header lines drawn from spoofed X-Forwarded-For/-Host/-Proto, True-Client-IP, X-Real-IP (odd name casing, repeated lines, comma lists), other X-Forwarded-*/Forwarded, Connection: <protected header>, benign headers. Each case: fresh Gateway, real tunnel proxy handler, fake tun.Server whose conn ends in a harness HTTP/1.1 peer that records the arriving request. Oracle: X-Forwarded-For = [peer IP], X-Forwarded-Proto = [https], X-Forwarded-Host = [host(:gateway port unless 443)], no True-Client-IP / X-Real-IP, no client-supplied value inside those headers. Non-trivial: >=1 spoofed protected header line present. Distinct = distinct generated requests.")
+	rec.Rule("rapid-generated requests written as raw HTTP/1.1 text and parsed with http.ReadRequest (header keys canonical exactly as a Go server delivers them), presented as HTTP/1.1 (TLS SNI = host), HTTP/2 and HTTP/3 requests (proto fields), Host with or without a port, label.root and custom hosts, peers IPv4/IPv6, gateway ports {443, 8443, 4433, 1, 65535}; header lines: for each of X-Forwarded-For/-Host/-Proto, True-Client-IP, X-Real-IP 0..3 occurrences (odd name casing per line), each occurrence with its own value kind out of {nothing after the colon, blanks/tabs only, a typed valid value with 0..2 leading blanks, a list 'a, b', garbage, the very value the gateway would assert (peer IP / host / https)}; optionally other X-Forwarded-*/Forwarded lines, Connection: <protected header>, 0..2 benign headers; all lines in a generated permutation, so any occurrence (e.g. an empty one) can come first. The text is parsed by net/http, so real parsing decides what the handler sees (an empty first value followed by a forged one included). Each case: fresh Gateway, real tunnel proxy handler, fake tun.Server whose conn ends in a harness HTTP/1.1 peer that records the arriving request. Oracle: X-Forwarded-For = [peer IP], X-Forwarded-Proto = [https], X-Forwarded-Host = [host(:gateway port unless 443)], no True-Client-IP / X-Real-IP, no client-supplied value inside those headers. Non-trivial: >=1 spoofed protected header line present. Distinct = distinct generated requests.")
 	rec.Assume("for HTTP/1.1 the Host header equals the TLS server name (the requested host is then unambiguous)",
 		"other X-Forwarded-* names (Port, Server, Ssl, Scheme) and Forwarded are recorded as informational only: the statement's first sentence enumerates For/Proto/Host",
 		"header keys are canonical as produced by net/http servers; non-canonical map keys cannot arrive from a real listener")
@@ -309,6 +365,12 @@ func TestC35(t *testing.T) {
 		Headers: []hdrLine{{"x-forwarded-for", "66.6.0.1, 66.6.0.2"}, {"X-Real-IP", "66.6.0.3"}, {"TRUE-CLIENT-IP", "66.6.0.4"}, {"X-Forwarded-Host", "spoof-0.evil.test"}, {"X-Forwarded-Proto", "http"}}})
 	runC35(t, rec, c35Case{Proto: "HTTP/2.0", Host: "hello.example.com", HostPort: "hello.example.com:8443", Peer: "[fd00::1:2]:5555", GatewayPort: 8443, Method: "POST",
 		Headers: []hdrLine{{"Connection", "X-Forwarded-For"}, {"X-Forwarded-For", "66.6.1.1"}, {"Forwarded", "for=66.6.1.2"}}})
+
+	for _, proto := range []string{"HTTP/1.1", "HTTP/2.0", "HTTP/3.0"} {
+		// repeated headers whose first occurrence is empty / blank
+		runC35(t, rec, c35Case{Proto: proto, Host: "hello.example.com", HostPort: "hello.example.com", Peer: "10.1.2.3:5555", GatewayPort: 443, Method: "GET",
+			Headers: []hdrLine{{"X-Real-IP", ""}, {"True-Client-IP", " \t"}, {"X-Forwarded-For", ""}, {"X-Real-IP", " 66.6.0.9"}, {"true-client-ip", " 66.6.0.8"}, {"X-Forwarded-For", " 66.6.0.7"}, {"X-Real-IP", ""}}})
+	}
 
 	ev.RapidCheck(t, 1200, 40000, func(t *rapid.T) {
 		runC35(t, rec, genC35(t))
